@@ -428,6 +428,17 @@ def _run(pr: PropertyRun, mod) -> int:
         path = write_replay(pr, "bounded_" + b["name"], {"bounded_check": b})
         violations.append({"obligation": "bounded:" + b["name"], "replay": path, "reproduced": True})
 
+    # Internal proof obligations - a loop invariant established / preserved, a callee's precondition at a call site, an inferred frame, a hint -
+    # say that the sidecar proof fits the code.  Refuted without any failing input (no replayable model, nothing from the bounded stand-in)
+    # they mean "the proof no longer fits", not "the property is violated": undecided.  Postconditions, exceptional postconditions, case
+    # and lemma obligations state the property itself and stay violations.
+    for v in list(violations):
+        nm = str(v.get("obligation", ""))
+        kind = nm.rsplit("/", 1)[-1].split(".", 1)[0] if "/" in nm else ""
+        if not v.get("reproduced") and (kind.startswith("loop") or kind in ("pre", "frame", "hint", "unfold")):
+            violations.remove(v)
+            pr.undecided.append({"obligation": nm, "reason": "internal proof obligation refuted by the solver, no failing input found (model not replayable, bounded stand-in clean): "
+                                                               "the sidecar proof no longer fits this code", "replay": v.get("replay")})
     printed = set()
     for h in known_hits:
         if id(h["finding"]) in printed:
